@@ -240,6 +240,9 @@ def run(ctx, chk):
             elif val == 0:
                 nF += 1
                 diff = [x for x in fs if isinstance(x, tuple) and x[0] in ('ne', 'diffnull')]
+                # a differing host *text* is a difference only if the host is not an IPv6 literal (compared by value)
+                if diff and all(x == ('ne', 'hostText') for x in diff) and not has('null', 'a.hostData.ip6'):
+                    diff = []
                 onenull = (has('null', 'a') and has('nonnull', 'b')) or (has('nonnull', 'a') and has('null', 'b')) or \
                     (has('null', 'a') != has('null', 'b'))
                 if not diff and not onenull:
@@ -259,11 +262,11 @@ def run(ctx, chk):
                 chk.ok('eq-true-path', key, f.loc, 'established on all %d TRUE return states' % nT, func=name)
         if false_bad:
             chk.bad('eq-false-path', 'ne:%s' % base_name(name), false_bad[0][0], '%s returns FALSE on a path that established no '
-                    'difference (%s)' % (name, false_bad[0][1]), func=name)
-        else:
-            for loc, val, facts in h.rets:
-                if val == 0:
-                    chk.ok('eq-false-path', 'ne:%s@%s' % (base_name(name), _first_diff(facts)), loc, 'difference established', func=name)
+                    'difference of a component the property compares (%s)' % (name, false_bad[0][1]), func=name)
+        badlocs = set(l for l, _d in false_bad)
+        for loc, val, facts in h.rets:
+            if val == 0 and loc not in badlocs:
+                chk.ok('eq-false-path', 'ne:%s@%s' % (base_name(name), _first_diff(facts)), loc, 'difference established', func=name)
         chk.analysed.setdefault('paths', {})[name] = {'return_states': len(h.rets), 'true': nT, 'false': nF}
         # compare range
         _compare_range(ctx, chk, prog, irp, suf)
@@ -349,7 +352,11 @@ def _compare_range(ctx, chk, prog, irp, suf):
                 else:
                     s = _strip(i.src)
                     txt = pp.expr(s)
-                    facts = facts | {('sym', dk, txt)}
+                    if s.k == 'ref':
+                        for x in facts:
+                            if isinstance(x, tuple) and x[0] == 'sym' and x[1] == s.v:
+                                txt = x[2]
+                    facts = frozenset(x for x in facts if not (isinstance(x, tuple) and x[0] == 'sym' and x[1] == dk)) | {('sym', dk, txt)}
             elif i.op == 'call' and i.dst is not None:
                 facts = frozenset(x for x in facts if not (isinstance(x, tuple) and x[1] == i.dst.v)) | {('sym', i.dst.v, 'cmp')}
             return facts
@@ -365,9 +372,16 @@ def _compare_range(ctx, chk, prog, irp, suf):
                     return None
                 facts = facts | {('null' if is_null else 'nonnull', k)}
             c = _strip(cond)
+            if c.k == 'bin' and c.v in ('==', '!=') and {expr_key(c.c[0]), expr_key(c.c[1])} == {a, b}:
+                if truth == (c.v == '=='):
+                    facts = facts | {('same', a, b)}
             if c.k == 'bin' and c.v in ('>', '<', '>=', '<=') and const_value(c.c[1], prog) == 0:
                 k = expr_key(c.c[0])
-                facts = facts | {('sign', k, c.v, truth)}
+                sym = k
+                for x in facts:
+                    if isinstance(x, tuple) and x[0] == 'sym' and x[1] == k:
+                        sym = x[2]
+                facts = facts | {('sign', sym, c.v, truth)}
             return facts
 
         def ret(self, blk, term, facts):
@@ -395,9 +409,35 @@ def _compare_range(ctx, chk, prog, irp, suf):
         chk.bad('compare-range', key, f.loc, '%s does not distinguish a NULL range/text from a present one on any path' % name, func=name)
     else:
         chk.ok('compare-range', key, f.loc, '%d return states with exactly one NULL operand, none returns 0' % n_null, func=name)
+    # every path that can return 0 with both operands present has compared the lengths and the texts
+    bad_zero = None
+    nzero = 0
+    for loc, e, facts in h.rets:
+        fs = set(facts)
+        cv = const_value(e, prog)
+        if cv is not None and cv != 0:
+            continue
+        if (('null', a) in fs) or (('null', b) in fs) or (('null', '%s->first' % a) in fs) or (('null', '%s->first' % b) in fs):
+            continue
+        nzero += 1
+        syms = dict((x[1], x[2]) for x in fs if isinstance(x, tuple) and x[0] == 'sym')
+        signs = set((x[1]) for x in fs if isinstance(x, tuple) and x[0] == 'sign' and x[3] is False)
+        len_checked = any('afterLast' in k and '-' in k for k in signs)
+        txt_checked = (cv is None and syms.get(expr_key(e)) == 'cmp') or ('cmp' in signs)
+        same_obj = ('same', a, b) in fs
+        if not same_obj and not (len_checked and txt_checked):
+            bad_zero = (loc, 'can return 0 for two present ranges without having compared %s'
+                        % ('their lengths' if not len_checked else 'their texts'))
+    key = 'cmp:%s/zero-means-equal' % bn
+    if bad_zero:
+        chk.bad('compare-range', key, bad_zero[0], '%s %s' % (name, bad_zero[1]), func=name)
+    elif nzero == 0:
+        chk.bad('compare-range', key, f.loc, '%s has no path returning 0 for present ranges' % name, func=name)
+    else:
+        chk.ok('compare-range', key, f.loc, '%d zero-capable return states: lengths and texts compared on each' % nzero, func=name)
     # length comparison present: some path returns a non-zero constant under a sign test of the length difference
     lens = [1 for loc, e, facts in h.rets if const_value(e, prog) in (1, -1) and
-            any(isinstance(x, tuple) and x[0] == 'sign' for x in facts)]
+            any(isinstance(x, tuple) and x[0] == 'sign' and 'afterLast' in x[1] for x in facts)]
     key = 'cmp:%s/length' % bn
     difflen = any(isinstance(x, tuple) and x[0] == 'sym' and 'afterLast' in x[2] and '-' in x[2]
                   for loc, e, facts in h.rets for x in facts)
